@@ -1862,6 +1862,9 @@ pub fn run_probe(words: &[&str]) -> String {
     if *what == "oncepoison" {
         return probe_oncepoison(*arg == "1");
     }
+    if *what == "caughtpanic" {
+        return probe_caughtpanic(arg.parse().unwrap_or(1));
+    }
     if *what != "f17" {
         return "ERR unknown probe".to_string();
     }
@@ -1891,6 +1894,46 @@ pub fn run_probe(words: &[&str]) -> String {
         Ok(n) => format!("PROBE OK N={}", n),
         Err(p) => format!("PROBE FAIL {}", classify(p)),
     }
+}
+
+/// probe caughtpanic <k>: a run of k+1 executions under the round-robin scheduler (the same schedule every time); the first
+/// k executions raise a panic and handle it themselves (catch_unwind) when their schedule has some length L and then pass,
+/// execution k really fails at the same length.  Prints how many schedule files were written while the failing execution
+/// ran (FailurePersistence::File): the failure must be persisted whatever the earlier executions did.
+fn probe_caughtpanic(k: usize) -> String {
+    use std::sync::atomic::{AtomicUsize, Ordering as O};
+    static EXEC: AtomicUsize = AtomicUsize::new(0);
+    static BEFORE: AtomicUsize = AtomicUsize::new(0);
+    static K: AtomicUsize = AtomicUsize::new(0);
+    let dir = std::env::temp_dir().join(format!("vh-caught-{}-{}", std::process::id(), k));
+    let _ = std::fs::remove_dir_all(&dir);
+    std::fs::create_dir_all(&dir).expect("vharness: cannot create the probe directory");
+    let count = |d: &std::path::Path| std::fs::read_dir(d).map(|r| r.count()).unwrap_or(0);
+    EXEC.store(0, O::SeqCst);
+    K.store(k, O::SeqCst);
+    let mut config = Config::new();
+    config.failure_persistence = FailurePersistence::File(Some(dir.clone()));
+    let d2 = dir.clone();
+    let res = catch_unwind(AssertUnwindSafe(|| {
+        Runner::new(shuttle_schedulers::RoundRobinScheduler::new(k + 1), config).run(move || {
+            let i = EXEC.fetch_add(1, O::SeqCst);
+            let h = thread::spawn(|| thread::yield_now());
+            for _ in 0..3 {
+                thread::yield_now();
+            }
+            if i < K.load(O::SeqCst) {
+                let r = catch_unwind(|| panic!("vharness: handled inside the body"));
+                assert!(r.is_err());
+            } else {
+                BEFORE.store(std::fs::read_dir(&d2).map(|r| r.count()).unwrap_or(0), O::SeqCst);
+                panic!("vharness: the real failure");
+            }
+            h.join().unwrap();
+        })
+    }));
+    let after = count(&dir);
+    let _ = std::fs::remove_dir_all(&dir);
+    format!("PROBE failed={} executions={} files_during_failing_execution={}", res.is_err() as u8, EXEC.load(O::SeqCst), after.saturating_sub(BEFORE.load(O::SeqCst)))
 }
 
 /// probe oncepoison <0|1>: a Once whose first initialiser panicked (caught by the body), then two threads calling
